@@ -24,12 +24,11 @@ def run(fn):
         rc, o = sh(f'git apply --check {pf} && git apply {pf}', cwd=src)
         if rc != 0:
             return fn, 'skipped (no longer applies)', ''
-        rc, o = sh('GOFLAGS=-mod=mod GOPROXY=off go build ./...', cwd=src)
-        if rc != 0:
-            return fn, 'BUILD-FAILS', o[-300:]
         bad = []
         for p in props:
             rc, o = sh(f'{BIN} -repo {src} -property {p} -verif {vd}')
+            if 'replay=load-failed' in o:
+                return fn, 'BUILD-FAILS', 'the patched tree does not type-check'
             if rc != 0:
                 bad.append(p + ': ' + ' '.join(sorted(set(re.findall(r'\[([A-Z0-9-]+)\]', o)))))
         return fn, 'FALSE-ALARM' if bad else 'silent', '; '.join(bad)
